@@ -85,6 +85,15 @@ def run(ctx):
     syscases = [c for c in relgen.systematic_cases(3 if quick else 4, SAFE, seed=44, sample=(random.Random(44), 729 if quick else 2500), kinds=syskinds)
                 if "window" in c.seq]
     syscases += relgen.inherited_order_cases(SAFE, variants=3 if quick else 6)
+    # window functions over a relation made DISTINCT (`group {all} (take 1)` on data with duplicate rows): they must see one row per
+    # distinct row, whatever follows
+    for seq in [("select_dups", "distinct", "window"), ("select_dups", "distinct", "window", "filter"), ("select_dups", "distinct", "derive", "window"),
+                ("select_dups", "distinct", "sort", "window"), ("select_dups", "distinct", "window", "sort"), ("select_dups", "distinct", "window", "take"),
+                ("select_dups", "distinct", "filter", "window")]:
+        for c in relgen.systematic_cases(len(seq), SAFE, seed=46, kinds=list(dict.fromkeys(seq)), variants=6 if quick else 20):
+            if c.seq == seq:
+                c.db = relgen.with_duplicates(c.db, random.Random(len(syscases)))
+                syscases.append(c)
     ctx.coverage_extra["systematic_window_sequences"] = len(syscases)
     for label, rng, n in [("systematic", None, 0), ("fixed", random.Random(404), 500 if quick else 5000), ("seed", ctx.rng, 300 if quick else 5000)]:
         cases = syscases if label == "systematic" else [relgen.make_case(rng, kinds=WIN_KINDS, max_tr=4, **SAFE) for _ in range(n)]
